@@ -8,7 +8,11 @@ tier = sys.argv[1] if len(sys.argv) > 1 else 'quick'
 names = sys.argv[2:] or sorted(os.listdir('/verif/seeded'))
 scratch = tempfile.mkdtemp(prefix='seedev-', dir='/verif/.work' if os.path.isdir('/verif/.work') else None)
 env = dict(os.environ, VERIF_EVIDENCE_DIR=scratch)
-assert subprocess.run('git -C /repo status --porcelain', shell=True, capture_output=True, text=True).stdout.strip() == '', '/repo not clean'
+# the seeded change is applied to a scratch worktree of /repo's HEAD, never to /repo itself
+WT = '/tmp/seedrun-wt'
+subprocess.run(['git', '-C', '/repo', 'worktree', 'remove', '--force', WT], capture_output=True)
+subprocess.run(['git', '-C', '/repo', 'worktree', 'add', '--detach', WT, 'HEAD'], check=True, capture_output=True)
+env['VERIF_REPO'] = WT
 rows = []
 for name in names:
     d = os.path.join('/verif/seeded', name)
@@ -17,20 +21,20 @@ for name in names:
         continue
     meta = json.load(open(mp))
     prop = meta['property']
-    ap = subprocess.run(['git', '-C', '/repo', 'apply', os.path.join(d, 'patch.diff')], capture_output=True, text=True)
+    ap = subprocess.run(['git', '-C', WT, 'apply', os.path.join(d, 'patch.diff')], capture_output=True, text=True)
     if ap.returncode != 0:
         meta['detected_by'] = {'tier': tier, 'result': 'patch does not apply to the current (fixed) tree', 'harnesses': []}
         json.dump(meta, open(mp, 'w'), indent=1)
         rows.append((name, prop, 'PATCH-FAILS', ''))
         continue
     try:
-        r = subprocess.run(['./check', 'run', prop, '--tier', tier], cwd='/verif', env=env, capture_output=True, text=True, timeout=3600)
+        r = subprocess.run(['./check', 'run', prop, '--tier', tier, '--stop-at-first'], cwd='/verif', env=env, capture_output=True, text=True, timeout=3600)
         out = r.stdout
     except subprocess.TimeoutExpired as e:
         out = (e.stdout or b'').decode() if isinstance(e.stdout, bytes) else (e.stdout or '')
         r = None
     finally:
-        subprocess.run('git -C /repo checkout -- .', shell=True)
+        subprocess.run('git -C %s checkout -- . && git -C %s clean -fdq' % (WT, WT), shell=True)
     hs = sorted(set(re.findall(r'^  harness=(\S+)', out, re.M)))
     detected = 'VIOLATION property=' in out
     skipped = sorted(set(re.findall(r'^SKIPPED-HARNESS (\S+):', out, re.M)))
@@ -43,3 +47,4 @@ with open('/verif/seeded/RESULTS.md', 'w') as f:
     for r in rows:
         f.write('| %s | %s | %s | %s |\n' % r)
 subprocess.run(['rm', '-rf', scratch])
+subprocess.run(['git', '-C', '/repo', 'worktree', 'remove', '--force', WT], capture_output=True)
